@@ -1,6 +1,7 @@
 import XalanModel.C01.PendingProofs
 import XalanModel.C01.VariablesProofs
 import XalanModel.C01.WalkerProofs
+import XalanModel.C01.CoreProofs
 /-!
 # C01 — the transformation result is the tree XSLT 1.0 defines
 
@@ -77,10 +78,10 @@ the current frame returns the innermost binding of the current template instance
 the parameters it has claimed), else the global binding; never a caller's binding.  Stack shape:
 current frame, its context marker, callers, the marker pushed by `markGlobalStackFrame`, the global
 variables, element frame 0, bottom marker. -/
-theorem variables_lexical (frame older globals : List Entry) (n : Nat)
+theorem variables_lexical (frame older globals : List Entry) (n : Nat) (act : Bool)
     (hf : NoMarker frame) (hg : NoMarker globals) :
     let stack := frame ++ .ctxMarker :: (older ++ .ctxMarker :: (globals ++ [.elemFrame 0, .ctxMarker]))
-    let s : VStack := { stack := stack, cur := stack.length, glob := globals.length + 2, marked := true }
+    let s : VStack := { stack := stack, cur := stack.length, glob := globals.length + 2, marked := true, activating := act }
     (s.getVariable n).map (·.1) =
       some (LexEnv.lookup { locals := frameBindings frame, globals := globalBindings globals } n) := by
   intro stack s
@@ -91,7 +92,7 @@ theorem variables_lexical (frame older globals : List Entry) (n : Nat)
     have : stack = (frame ++ .ctxMarker :: (older ++ .ctxMarker :: (globals ++ [.elemFrame 0]))) ++ [.ctxMarker] := by
       simp [stack]
     rw [this, List.dropLast_concat]
-  have hloc := findLocal_frame n frame (older ++ .ctxMarker :: (globals ++ [.elemFrame 0])) hf
+  have hloc := findLocal_frame n frame (older ++ .ctxMarker :: (globals ++ [.elemFrame 0])) hf act
   have hdrop : stack.drop (stack.length - (globals.length + 2)) = globals ++ [.elemFrame 0, .ctxMarker] := by
     have hs : stack = (frame ++ Entry.ctxMarker :: (older ++ [Entry.ctxMarker])) ++ (globals ++ [Entry.elemFrame 0, Entry.ctxMarker]) := by
       simp [stack]
@@ -105,7 +106,7 @@ theorem variables_lexical (frame older globals : List Entry) (n : Nat)
     findGlobal_globals n globals [Entry.elemFrame 0] hg (by simp [findGlobal])
   simp only [getVariable, findEntry, s]
   simp only [Nat.lt_irrefl, if_false, Nat.sub_self, List.take_zero, List.drop_zero, List.nil_append, hpart]
-  cases hfl : findLocal n false (frame ++ Entry.ctxMarker :: (older ++ Entry.ctxMarker :: (globals ++ [Entry.elemFrame 0]))) with
+  cases hfl : findLocal n false act (frame ++ Entry.ctxMarker :: (older ++ Entry.ctxMarker :: (globals ++ [Entry.elemFrame 0]))) with
   | some r =>
     have : (frameBindings frame).lookup n = some r.1 := by rw [← hloc, hfl]; rfl
     simp [LexEnv.lookup, this]
@@ -123,23 +124,78 @@ back exactly the stack and start index it had. -/
 theorem variables_balanced (s : VStack) (es : List Entry) (hc : s.cur = s.stack.length) (hm : s.marked = true)
     (hes : NoMarker es) :
     (es.foldl VStack.push s.pushContextMarker).popContextMarker = s := by
-  obtain ⟨st, cur, glob, marked⟩ := s
+  obtain ⟨st, cur, glob, marked, act⟩ := s
   simp only at hc hm
   subst hc hm
-  have h0 : (VStack.pushContextMarker ⟨st, st.length, glob, true⟩) = ⟨Entry.ctxMarker :: st, st.length + 1, glob, true⟩ := by
+  have h0 : (VStack.pushContextMarker ⟨st, st.length, glob, true, act⟩) = ⟨Entry.ctxMarker :: st, st.length + 1, glob, true, act⟩ := by
     simp [pushContextMarker, push, Entry.isVar]
   rw [h0, pushes_shape es _ (by simp) (by simp)]
   have hrev : NoMarker es.reverse := fun e he => hes e (by simpa using he)
   have key := popContextMarkerAux_frame es.reverse hrev
-    ((es.reverse ++ Entry.ctxMarker :: st).length) st glob true (by simp)
+    ((es.reverse ++ Entry.ctxMarker :: st).length) st glob true act (by simp)
   have e : es.length + (Entry.ctxMarker :: st).length = (es.reverse ++ Entry.ctxMarker :: st).length := by simp
-  show popContextMarkerAux _ ⟨es.reverse ++ Entry.ctxMarker :: st, es.length + (Entry.ctxMarker :: st).length, glob, true⟩ = _
+  show popContextMarkerAux _ ⟨es.reverse ++ Entry.ctxMarker :: st, es.length + (Entry.ctxMarker :: st).length, glob, true, act⟩ = _
   rw [e]
   exact key
 
 example : ({ stack := [Entry.ctxMarker], cur := 1, marked := true } : VStack).cur = 1 := rfl
 
-/-- **Parameter activation outlives the template that claimed it** (the code as it is): within one
+/-- **Parameters are lexical too.**  `xsl:param` (a parameter lookup) evaluated in the current frame finds the
+innermost binding of that name among the frame's variables and the parameters passed to *this* call — never a
+parameter passed to a caller — whichever `findEntry` the tree has. -/
+theorem variables_lexical_params (frame older globals : List Entry) (n : Nat) (act : Bool)
+    (hf : NoMarker frame) :
+    let stack := frame ++ .ctxMarker :: (older ++ .ctxMarker :: (globals ++ [.elemFrame 0, .ctxMarker]))
+    let s : VStack := { stack := stack, cur := stack.length, glob := globals.length + 2, marked := true, activating := act }
+    (s.getParamVariable n).map (·.1) = some ((frameParamBindings frame).lookup n) := by
+  intro stack s
+  have hpart : stack.dropLast =
+      frame ++ .ctxMarker :: (older ++ .ctxMarker :: (globals ++ [.elemFrame 0])) := by
+    have : stack = (frame ++ .ctxMarker :: (older ++ .ctxMarker :: (globals ++ [.elemFrame 0]))) ++ [.ctxMarker] := by
+      simp [stack]
+    rw [this, List.dropLast_concat]
+  have hloc := findLocal_param_frame n frame (older ++ .ctxMarker :: (globals ++ [.elemFrame 0])) hf act
+  simp only [getParamVariable, findEntry, s]
+  simp only [Nat.lt_irrefl, if_false, Nat.sub_self, List.take_zero, List.drop_zero, List.nil_append, hpart]
+  cases hfl : findLocal n true act (frame ++ Entry.ctxMarker :: (older ++ Entry.ctxMarker :: (globals ++ [Entry.elemFrame 0]))) with
+  | some r =>
+    have : (frameParamBindings frame).lookup n = some r.1 := by rw [← hloc, hfl]; rfl
+    simp [this]
+  | none =>
+    have hnone : (frameParamBindings frame).lookup n = none := by rw [← hloc, hfl]; rfl
+    simp [hnone]
+
+/-- **Lookups do not change the stack** (the repaired `findEntry`, `activating = false`): whatever the stack,
+the name, the kind of lookup — the stack afterwards is the stack before.  Hence no history of lookups made by
+one template instance can influence what another one sees: together with `variables_lexical`,
+`variables_lexical_params` and `variables_balanced` this is lexical scoping for variables *and* parameters, for
+every history.  (With `activating = true` it fails: `variables_activation_leak_counterexample`.) -/
+theorem variables_lookup_pure (s : VStack) (n : Nat) (isParam searchGlobal : Bool)
+    (r : Option Nat × VStack) (ha : s.activating = false) (h : s.findEntry n isParam searchGlobal = some r) :
+    r.2 = s := by
+  obtain ⟨st, cur, glob, marked, act⟩ := s
+  simp only at ha
+  subst ha
+  simp only [findEntry] at h
+  split at h
+  · cases h
+  · cases hfl : findLocal n isParam false ((st.drop (st.length - cur)).dropLast) with
+    | some x =>
+      have hx := findLocal_pure n isParam _ x hfl
+      simp only [hfl] at h
+      cases h
+      simp only [hx]
+      congr 1
+      exact split_recombine st (st.length - cur)
+    | none =>
+      simp only [hfl] at h
+      split at h
+      · split at h
+        · cases h
+        · cases h; rfl
+      · cases h; rfl
+
+/-- **Parameter activation outlives the template that claimed it** (the code before the repair, `activating = true`): within one
 `xsl:apply-templates` the passed parameters sit below every per-node frame; once a template has
 claimed `X` (`eParam → eActiveParam`), a *later* template of the same call that does not declare `X`
 finds it with `getVariable` and no longer sees the global `X`.  History: globals `[X=1]`, marker,
@@ -159,7 +215,8 @@ theorem variables_activation_leak_counterexample :
 open XalanModel.C01.Walker in
 /-- **The loop is the recursion.**  For every program (any number of templates, any nesting of blocks,
 `call-template`, `choose` taking any branch or none, `for-each` over any number of nodes, `apply-templates`
-selecting any sequence of templates, any call graph including recursion) and every template `t0`: whenever the recursive
+selecting any sequence of templates, elements with `use-attribute-sets` naming any sequence of (nested) attribute
+sets, any call graph including recursion) and every template `t0`: whenever the recursive
 traversal of `t0` is defined (terminates, all targets exist) with event sequence `tr`, the iterative
 `execute` loop finishes, has issued exactly `tr` (the same `startElement`/`endElement` calls in the same
 order), and has left the invoker stack and the node-list stack exactly as it found them. -/
@@ -222,5 +279,39 @@ example :
     (Walker.recRun P 30 0).map List.length = some 56 ∧
     (Walker.execute P 200 0 [] []).map (fun r => (r.1.length, r.2)) = some (56, [], []) := by
   decide +kernel
+
+/-! ## Core: the engine with data refines the recursive specification (fragment) -/
+
+open XalanModel.C01.Core in
+/-- **Refinement for the fragment** value-of / literal result elements / blocks / call-template / choose /
+for-each / apply-templates, with the XPath and pattern layer as an arbitrary oracle (every select, every chosen
+template rule, every branch, every string value may depend on the current node, its position and the size of the
+current node list in any way): whenever the
+recursive specification `instRun` is defined with event list `tr`, the iterative engine (`Core.run`: the
+`execute` loop with invoker stack, node-list stack and current-node stack, output through the pending start tag)
+terminates and delivers exactly the result tree `normalize tr` that XSLT defines.
+`_partial`: variables/parameters, attributes, copy, sort keys and the other instructions are outside the
+fragment (their mechanisms are covered separately by `variables_*` and `pending_*`), and the oracle is not tied
+to `Spec.eval` by proof (it is by the correspondence runs). -/
+theorem core_refines_spec_partial (P : Core.Prog) (O : Core.Oracle) (fuel t0 : Nat) (root : Core.SrcNode)
+    (tr : List REv) (h : Core.instRun P O fuel t0 root = some tr) :
+    ∃ n, Core.run P O n t0 root = some (normalize tr) := by
+  obtain ⟨n, hn⟩ := run_calls P O fuel t0 root tr h
+  have hp := plain_guarded tr (plain_instRun P O fuel t0 root tr h)
+  refine ⟨n, ?_⟩
+  simp only [Core.run, hn, if_true]
+  rw [(pending_refines_spec tr hp.1 hp.2).2]
+
+/-- the hypothesis is satisfiable: a root rule with a for-each over two nodes producing `<x/>` each and an
+apply-templates whose two selected nodes get the rule `<y/>` (8 events).  (The driver `xm_c01 core` evaluates
+larger instances and compares `Core.run` with the real engine and with `Spec.transform`.) -/
+example :
+    let P : Core.Prog := [ .mk .block [.mk .forEach [.mk (.lre "x") []], .mk .apply []], .mk (.lre "y") [] ]
+    let O : Core.Oracle :=
+      { sel := fun _ n => if n.1 = 0 then [(1, 1, 2), (2, 2, 2)] else [], tmpl := fun _ _ => 1, branch := fun _ _ => 0,
+        str := fun _ _ => "" }
+    (Core.instRun P O 9 0 (0, 1, 1)).map List.length = some 8 := by
+  simp [Core.instRun, Core.inst, Core.instKids, Core.instNodes, Core.instTmpls, Core.lookup, Core.child, Core.Node.get,
+    Core.Node.kind, Core.Node.kids, Core.endOut]
 
 end XalanModel.Props.C01
